@@ -56,7 +56,7 @@ func buildEvidence(prop, tier string, seed int64, pd PropDef, rs []hres, validat
 		harnesses = append(harnesses, map[string]interface{}{
 			"harness": r.def.Fn, "bounds": r.params, "solver": solver, "paths": st.Paths, "distinct_paths": st.Distinct,
 			"branch_records": st.Records, "flip_queries": st.Flips, "obligations": st.Obligations, "discharged_unsat": st.Discharged,
-			"assertions_decided_concretely_on_path": st.ConcreteAsserts, "solver_unknown": st.Unknown,
+			"assertions_decided_concretely_on_path": st.ConcreteAsserts, "solver_unknown": st.Unknown, "decided_by_second_solver": st.SecondOpinions,
 			"counterexamples": len(st.Cex), "solver_time_s": st.SolverTime.Seconds(), "interp_time_s": st.InterpTime.Seconds(),
 			"instructions": st.Steps, "max_goroutines": st.MaxGoroutines, "schedule_symbolic": r.def.Sched,
 		})
